@@ -162,7 +162,6 @@ fn run_case(case: &Case) -> Result<(Line, Result<(), String>), String> {
     parents_arg.push((parent_ids[j], sp));
   }
   // cardinal = neither a parent's output nor the output of a satpoint named by an entry
-  let _ = first_cardinal;
   let cardinals: BTreeSet<OutPoint> = (0..outputs.len())
     .filter(|i| *i >= first_sat_output && !(case.mode == 1 && *i < first_sat_output + case.n))
     .map(|i| OutPoint { txid: setup_txid, vout: i as u32 })
@@ -229,7 +228,14 @@ fn run_case(case: &Case) -> Result<(Line, Result<(), String>), String> {
     postage: if case.mode == 1 { None } else { Some(case.postage) },
     reinscribe: false,
     sat: None,
-    satpoint: None,
+    // same-sat batches may name the sat to inscribe: a sat in the middle of the big cardinal
+    // output, so that the commit transaction needs an alignment output and the commit output
+    // is not output 0
+    satpoint: if case.mode == 0 && case.postage % 3 == 0 {
+      Some(SatPoint { outpoint: OutPoint { txid: setup_txid, vout: first_cardinal as u32 }, offset: 1_000 + case.postage })
+    } else {
+      None
+    },
     inscriptions: entries,
     etching,
   };
